@@ -14,7 +14,7 @@ checks, na = [], []
 for p in props:
     pid = p["id"]
     pc = cfg["properties"].get(pid)
-    if not pc or pc.get("disabled"):
+    if not pc or pc.get("disabled") or not pc.get("ready"):
         na.append({"property_id": pid, "reason": (pc or {}).get("na_reason", cfg.get("na_reasons", {}).get(pid, "check not built yet in this session; design in DESIGN.md section 2"))})
         continue
     m = pc["manifest"]
